@@ -4,6 +4,13 @@ icontract post-conditions (vmon.monitors.math) are installed on the real
 felupe.math routines; this module only *drives* them: all dims, broadcast batch
 shapes, float64/float32, out=None / fresh / reused buffers, parallel on/off
 under a tiny thread switch interval.
+
+Cases: ``unary`` / ``binary`` / ``misc`` (the plain passes), ``flags`` (buffers
+holding NaN / inf or aliasing an input, flag combinations, identity / tovoigt
+variants), ``shapes`` (no / three batch axes, float32 / integer operands, mixed
+tensor dimensions, batches longer than the thread pool, solve_nd / linsteps /
+strain inputs the plain passes leave out), ``fields`` (the field-level functions
+on two-field containers, judged here against explicit loops).
 """
 import sys
 
@@ -202,7 +209,8 @@ def drive_misc(run, rng, tier):
     for f in cont.fields:
         f.values[:] = 0.1 * rng.standard_normal(f.values.shape)
     for n_ in (0, 1):
-        Fq = cont[n_].extract(grad=True, sym=False, add_identity=True)
+        # (deformation gradient from explicit loops over cells and quadrature points, not from the field's own extract)
+        Fq = _quad_F(cont[n_], reg, mesh) + np.eye(3).reshape(3, 3, 1, 1)
         Cq = np.einsum("ki...,kj...->ij...", Fq, Fq)
         w, N = np.linalg.eigh(np.moveaxis(Cq, (0, 1), (-2, -1)))
         for k_, f_ in ((0, lambda lam2: np.log(lam2) / 2), (2, lambda lam2: (lam2 - 1) / 2)):
@@ -221,6 +229,333 @@ def drive_misc(run, rng, tier):
         fm.linsteps(pts, num=num, endpoint=bool(rng.integers(0, 2)))
 
 
+NRES_DOT = {(2, 2): 2, (1, 1): 0, (4, 4): 6, (2, 1): 1, (1, 2): 1, (2, 3): 3, (3, 2): 3, (4, 1): 3, (1, 4): 3, (2, 4): 4, (4, 2): 4}
+
+
+def drive_flags(run, rng, tier):
+    """Variants selected by flags and buffers that the plain passes do not reach (third audit): buffers that hold
+    NaN / inf before the call (a result buffer from numpy.empty may hold anything), buffers that alias an input (the
+    only way the library itself uses ``sym(out=)`` / ``dot(out=)``), ``trace`` / ``cof`` with a buffer, ``inv``'s
+    second return value together with the other flags, ``identity`` with ``A`` and ``dim`` / ``shape`` / ``dtype``,
+    ``tovoigt`` of non-symmetric tensors."""
+    import felupe.math as fm
+    old = sys.getswitchinterval()
+    sys.setswitchinterval(1e-6)
+    try:
+        for d in (1, 2, 3):
+            # (quick tier: two of the four batch shapes per dimension, by index)
+            for batch in ([(3, 5), (1, 1), (7,), (2, 3, 4)] if tier != "quick" else [(3, 5), [(1, 1), (7,), (2, 3, 4)][d - 1]]):
+                for dtype in (np.float64, np.float32):
+                    A = well_conditioned(rng, d, batch, dtype)
+                    S = well_conditioned(rng, d, batch, dtype, sym=True)
+                    # identity: documented (N, M, *ones) from A, (dim, dim, *ones) with dim, len(shape) batch axes, dtype
+                    fm.identity(A, shape=(4, 7, 3))
+                    fm.identity(A, dim=d)
+                    fm.identity(A, dim=d, shape=(2,))
+                    fm.identity(A, dtype=np.float32 if dtype is np.float64 else np.float64)
+                    fm.identity(dim=d, shape=batch, dtype=dtype)
+                    R = rng.standard_normal((3, 2) + batch).astype(dtype)
+                    fm.identity(R)
+                    fm.identity(R, dim=2)  # the docstring's example
+                    # tovoigt inserts the upper triangle of *any* second-order tensor (a view hands it the first Piola-Kirchhoff stress)
+                    fm.tovoigt(A)
+                    fm.tovoigt(A, strain=True)
+                    # buffers whose old content is NaN / inf
+                    for fill in (np.nan, np.inf):
+                        fm.det(A, out=np.full(batch, fill, dtype=dtype))
+                        fm.inv(A, out=np.full_like(A, fill))
+                        fm.inv(S, sym=True, out=np.full_like(A, fill))
+                        fm.inv(A, determinant=fm.det(A), out=np.full_like(A, fill))
+                        fm.cof(A, out=np.full_like(A, fill))
+                        fm.cof(S, sym=True, out=np.full_like(A, fill))
+                        fm.dev(A, out=np.full_like(A, fill))
+                        fm.sym(A, out=np.full_like(A, fill))
+                        fm.trace(A, out=np.full(batch, fill, dtype=dtype))
+                    # trace / cof into a fresh and a reused buffer
+                    tb = np.full(batch, 7.0, dtype=dtype)
+                    fm.trace(A, out=tb)
+                    fm.trace(S, out=tb)
+                    cb = np.full_like(A, 7.0)
+                    fm.cof(A, out=cb)
+                    fm.cof(S, sym=True, out=cb)
+                    # second return value of inv together with the other flags
+                    J = fm.det(A)
+                    fm.inv(A, determinant=J, full_output=True)
+                    fm.inv(S, sym=True, full_output=True)
+                    fm.inv(A, full_output=True, out=np.full_like(A, 7.0))
+                    fm.inv(S, determinant=fm.det(S), sym=True, full_output=True, out=cb)
+                    # in place: the buffer is the input
+                    a = A.copy()
+                    fm.sym(a, out=a)
+                    a = A.copy()
+                    fm.dev(a, out=a)
+                    fm.transpose(A, out=np.full_like(A, 7.0))
+                # binary routines: aliased buffers (SolidBodyCauchyStress: dot(sigma, fun, out=fun)) and NaN / inf buffers
+                mk = lambda n, b: rng.standard_normal((d,) * n + b)
+                for par in (False, True):
+                    A = mk(2, batch)
+                    b2 = mk(2, batch)
+                    fm.dot(A, b2, mode=(2, 2), parallel=par, out=b2)
+                    b4 = mk(4, batch)
+                    fm.dot(A, b4, mode=(2, 4), parallel=par, out=b4)
+                    a2 = mk(2, batch)
+                    fm.dot(a2, A, mode=(2, 2), parallel=par, out=a2)
+                    if batch == (2, 3, 4) and d == 3:
+                        continue
+                    for fill in (np.nan, np.inf):
+                        for (la, lb) in MM.DOT:
+                            fm.dot(mk(la, batch), mk(lb, batch), mode=(la, lb), parallel=par, out=np.full((d,) * NRES_DOT[(la, lb)] + batch, fill))
+                        for (la, lb) in MM.DDOT:
+                            fm.ddot(mk(la, batch), mk(lb, batch), mode=(la, lb), parallel=par, out=np.full((d,) * (la + lb - 4) + batch, fill))
+                        fm.dddot(mk(3, batch), mk(3, batch), parallel=par, out=np.full(batch, fill))
+                        A, B = mk(2, batch), mk(2, batch)
+                        fm.cdya_ik(A, B, parallel=par, out=np.full((d,) * 4 + batch, fill))
+                        fm.cdya_il(A, B, parallel=par, out=np.full((d,) * 4 + batch, fill))
+                        fm.cdya(A, B, parallel=par, out=np.full((d,) * 4 + batch, fill))
+                        fm.dya(A, B, parallel=par, out=np.full((d,) * 4 + batch, fill))
+                        fm.dya(mk(1, batch), mk(1, batch), mode=1, parallel=par, out=np.full((d, d) + batch, fill))
+    finally:
+        sys.setswitchinterval(old)
+
+
+def drive_shapes(run, rng, tier):
+    """Members of the quantifier the plain passes leave out (third audit): no batch axis at all, three batch axes and
+    float32 / integer operands for the binary routines, operands of different tensor dimension where documented,
+    threaded evaluations whose chunks hold more than one item (with broadcast operands, buffers, d < 3), the
+    remaining documented inputs of solve_nd / linsteps, special spectra and own strain-stretch relations of strain."""
+    import felupe.math as fm
+    old = sys.getswitchinterval()
+    sys.setswitchinterval(1e-6)
+    try:
+        nthreads = MM._state.get("threads") or 0
+        long_ = 2 * nthreads + 1 if 2 <= nthreads <= 64 else 33
+        pairs = [((), ()), ((2, 3, 4), (2, 3, 4)), ((2, 1, 4), (1, 3, 1)),
+                 # more items than workers along the split axis: chunks of two and three items
+                 ((long_,), (long_,)), ((long_,), (1,)), ((1,), (long_,)), ((nthreads + 1 if nthreads >= 2 else 17, 2), (nthreads + 1 if nthreads >= 2 else 17, 1))]
+        for d in (1, 2, 3):
+            mk = lambda n, b: rng.standard_normal((d,) * n + b)
+            quick = tier == "quick"
+            # ---- unary routines without a batch axis (det / inv / cof need one: they raise, loud)
+            A = well_conditioned(rng, d, ())
+            S = well_conditioned(rng, d, (), sym=True)
+            fm.dev(A)
+            fm.sym(A)
+            fm.trace(A)
+            fm.transpose(A)
+            fm.tovoigt(A)
+            fm.tovoigt(S, strain=True)
+            fm.equivalent_von_mises(S)
+            fm.identity(A)
+            fm.eigh(S)
+            fm.eig(A)
+            fm.eigvals(A)
+            fm.eigvalsh(S)
+            if d > 1:
+                fm.strain(None, C=fm.dot(fm.transpose(A), A), k=0)
+                fm.strain(None, C=fm.dot(fm.transpose(A), A), k=2, tensor=False)
+            # ---- binary routines
+            # (quick tier, d < 3: no batch axis, one three-axes pair and the long batches with a broadcast operand)
+            for ba, bb in (pairs if not (quick and d < 3) else [pairs[0], pairs[d], pairs[3 + d], pairs[6]]):
+                bs = np.broadcast_shapes(ba, bb)
+                for par in (False, True):
+                    for (la, lb) in MM.DOT:
+                        fm.dot(mk(la, ba), mk(lb, bb), mode=(la, lb), parallel=par)
+                        if len(ba) == 1:
+                            fm.dot(mk(la, ba), mk(lb, bb), mode=(la, lb), parallel=par, out=np.full((d,) * NRES_DOT[(la, lb)] + bs, 5.0))
+                    for (la, lb) in MM.DDOT:
+                        fm.ddot(mk(la, ba), mk(lb, bb), mode=(la, lb), parallel=par)
+                        if len(ba) == 1:
+                            fm.ddot(mk(la, ba), mk(lb, bb), mode=(la, lb), parallel=par, out=np.full((d,) * (la + lb - 4) + bs, 5.0))
+                    fm.dddot(mk(3, ba), mk(3, bb), parallel=par)
+                    A, B = mk(2, ba), mk(2, bb)
+                    fm.cdya_ik(A, B, parallel=par)
+                    fm.cdya_il(A, B, parallel=par)
+                    fm.cdya(A, B, parallel=par)
+                    if len(ba) == 1:
+                        fm.cdya(A, B, parallel=par, out=np.full((d,) * 4 + bs, 3.0))
+                        fm.cdya_ik(A, B, parallel=par, out=np.full((d,) * 4 + bs, 3.0))
+                fm.dya(mk(2, ba), mk(2, bb))
+                fm.dya(mk(1, ba), mk(1, bb), mode=1)
+                fm.majortranspose(mk(4, ba))
+                fm.transpose(mk(4, ba), mode=2)
+                if d == 3:
+                    fm.cross(mk(1, ba), mk(1, bb))
+                if d > 1:
+                    vec = rng.standard_normal((2, d) + ba)
+                    fm.inplane(mk(2, ba), vec)
+                    fm.inplane(mk(2, ba), [vec[0], vec[1]])  # documented type: list of ndarray
+                    fm.inplane(mk(2, ba), vec, out=np.full((2, 2) + ba, np.nan))  # keyword arguments go to einsum
+            # ---- float32 and integer operands (the results are exact in integer arithmetic)
+            for ba, bb in [((3, 5), (3, 5)), ((3, 1), (1, 5))][slice(d % 2, d % 2 + 1) if quick else slice(None)]:
+                mk32 = lambda n, b: rng.standard_normal((d,) * n + b).astype(np.float32)
+                mki = lambda n, b: rng.integers(-5, 6, (d,) * n + b)
+                for make in (mk32, mki):
+                    for par in (False, True):
+                        for (la, lb) in MM.DOT:
+                            fm.dot(make(la, ba), make(lb, bb), mode=(la, lb), parallel=par)
+                        for (la, lb) in MM.DDOT:
+                            fm.ddot(make(la, ba), make(lb, bb), mode=(la, lb), parallel=par)
+                        fm.dddot(make(3, ba), make(3, bb), parallel=par)
+                        fm.cdya_ik(make(2, ba), make(2, bb), parallel=par)
+                        fm.cdya_il(make(2, ba), make(2, bb), parallel=par)
+                    fm.dya(make(2, ba), make(2, bb))
+                    fm.dya(make(1, ba), make(1, bb), mode=1)
+                    if d == 3:
+                        fm.cross(make(1, ba), make(1, bb))
+                fm.dot(mk32(2, ba), mk(2, bb))  # mixed precision
+                fm.det(mki(2, ba))
+                fm.trace(mki(2, ba))
+                fm.transpose(mki(2, ba))
+            # ---- batched linear solves: the remaining documented inputs
+            for batch in [(), (5,), (3, 5), (2, 3, 4)]:
+                one = (1,) * len(batch)
+                A2 = np.eye(d).reshape((d, d) + one) + 0.1 * mk(2, batch)
+                fm.solve_nd(A2, mk(1, batch), n=1)
+                A4 = np.einsum("ik,jl->ijkl", np.eye(d), np.eye(d)).reshape((d,) * 4 + one) + 0.1 * mk(4, batch)
+                fm.solve_2d(A4, mk(2, batch))
+                # n = 0 ("greater or equal zero"): one scalar equation per batch item
+                # (without any batch axis the call raises: loud)
+                if batch:
+                    fm.solve_nd(1.0 + 0.1 * mk(0, batch), mk(0, batch), n=0)
+                if d > 1:
+                    # right-hand sides with size-one tensor axes (the same value for every component)
+                    fm.solve_nd(A2, rng.standard_normal((1,) + batch), n=1)
+                    fm.solve_2d(A4, rng.standard_normal((d, 1) + batch))
+                    fm.solve_2d(A4, rng.standard_normal((1, 1) + batch))
+            # ---- operands of different tensor dimension (documented for the dyadic products)
+            m = {1: 3, 2: 3, 3: 2}[d]
+            for ba, bb in [((3, 5), (3, 5)), ((3, 1), (1, 5)), ((), ())]:
+                fm.dya(rng.standard_normal((d, d) + ba), rng.standard_normal((m, m) + bb))
+                fm.dya(rng.standard_normal((d,) + ba), rng.standard_normal((m,) + bb), mode=1)
+                for par in (False, True):
+                    fm.cdya_ik(rng.standard_normal((d, m) + ba), rng.standard_normal((d, m) + bb), parallel=par)
+                    fm.cdya_il(rng.standard_normal((d, m) + ba), rng.standard_normal((d, m) + bb), parallel=par)
+            # ---- strain: special spectra, small strains, own strain-stretch relation, one dimension
+            for batch in [(3, 5), (1, 1), (7,)][slice(d % 3, d % 3 + 1) if quick else slice(None)]:
+                one = (1,) * len(batch)
+                Cs = []
+                Cs.append(("identity", np.broadcast_to(np.eye(d).reshape((d, d) + one), (d, d) + batch).copy()))
+                lam = rng.uniform(0.6, 1.8, batch)
+                if d > 1:
+                    # uniaxial tension along the first axis and the same state in a rotated frame (two equal stretches)
+                    U = np.zeros((d, d) + batch)
+                    U[0, 0] = lam ** 2
+                    for i in range(1, d):
+                        U[i, i] = lam ** (-2.0 / (d - 1))
+                    Cs.append(("uniaxial", U))
+                    Q = np.zeros((d, d) + batch)
+                    for idx in np.ndindex(*batch):
+                        Q[(slice(None), slice(None)) + idx] = np.linalg.qr(rng.standard_normal((d, d)))[0]
+                    Cs.append(("uniaxial-rotated", np.einsum("ia...,ab...,jb...->ij...", Q, U, Q)))
+                # small strains (|E| = 1e-5: the strain measures differ by 1e-10 there)
+                Fs = np.eye(d).reshape((d, d) + one) + 1e-5 * rng.standard_normal((d, d) + batch)
+                Cs.append(("small", np.einsum("ki...,kj...->ij...", Fs, Fs)))
+                Fg = well_conditioned(rng, d, batch)
+                Cs.append(("generic", np.einsum("ki...,kj...->ij...", Fg, Fg)))
+                for name, C in Cs:
+                    for k in (0, 2, 1, -1):
+                        fm.strain(None, C=C, k=k)
+                        fm.strain(None, C=C, k=k, tensor=False)
+                        fm.strain(None, C=C, k=k, asvoigt=True)
+                    # the documented customisation (Biot strain), extra keyword arguments are handed to fun
+                    fm.strain(None, C=C, fun=lambda stretch, shift: stretch - shift, shift=1.0)
+                    fm.strain(None, C=C, fun=lambda stretch, shift: stretch - shift, shift=1.0, tensor=False)
+                    fm.strain(None, C=C, fun=lambda stretch, shift: stretch - shift, shift=1.0, asvoigt=True)
+        # ---- step sequences with empty segments (documented: num may be zero)
+        fm.linsteps([0, 1], num=0)
+        fm.linsteps([0, 1], num=0, endpoint=False)
+        fm.linsteps([0, 1, 3], num=[0, 3])
+        fm.linsteps([0, 1, 3], num=[2, 0])
+        fm.linsteps([0, 1, 3, 2], num=[2, 0, 3], axis=1, axes=2)
+    finally:
+        sys.setswitchinterval(old)
+
+
+def _quad_F(field, region, mesh):
+    """Displacement gradient at the quadrature points from the definition: sum over the points a of a cell,
+    u_(a i) dh_a/dX_J (explicit loops over cells and quadrature points, nothing of the field's own methods)."""
+    vals = np.asarray(field.values)
+    dhdX = np.asarray(region.dhdX)
+    nq, nc = dhdX.shape[-2:]
+    H = np.zeros((vals.shape[1], dhdX.shape[1], nq, nc))
+    for c in range(nc):
+        uc = vals[mesh.cells[c]]
+        for q in range(nq):
+            H[:, :, q, c] = uc.T @ dhdX[:, :, q, c]
+    return H
+
+
+def drive_fields(run, rng, tier):
+    """The field-level functions of ``felupe.math`` (kinematic quantities of the n-th field of a container):
+    ``displacement(dim, n)``, ``deformation_gradient(n)``, ``right_cauchy_green_deformation(n)``, ``strain(n, tensor,
+    asvoigt)`` on 3D, 2D, plane-strain and axisymmetric fields; reference: explicit loops over cells and quadrature
+    points with the values of exactly the field named by ``n``."""
+    import felupe as fem
+    import felupe.math as fm
+    from ..util import maxabs
+
+    def bodies():
+        m3 = fem.Cube(n=3)
+        m2 = fem.Rectangle(a=(0, 1), b=(1, 2), n=3)  # radial coordinate 1..2 for the axisymmetric field
+        for m in (m3, m2):
+            # (distorted cells, in units of the cell size 0.5)
+            m.points[:] = m.points + 0.04 * rng.uniform(-1, 1, m.points.shape)
+        r3, r2 = fem.RegionHexahedron(m3), fem.RegionQuad(m2)
+        yield "3d", m3, r3, [fem.Field(r3, dim=3), fem.Field(r3, dim=3)]
+        yield "2d", m2, r2, [fem.Field(r2, dim=2), fem.Field(r2, dim=2)]
+        yield "planestrain", m2, r2, [fem.FieldPlaneStrain(r2, dim=2), fem.FieldPlaneStrain(r2, dim=2)]
+        yield "axisymmetric", m2, r2, [fem.FieldAxisymmetric(r2, dim=2), fem.FieldAxisymmetric(r2, dim=2)]
+
+    voigt = {2: [(0, 0), (1, 1), (0, 1)], 3: [(0, 0), (1, 1), (2, 2), (0, 1), (1, 2), (0, 2)]}
+    for kind, mesh, reg, fields in bodies():
+        cont = fem.FieldContainer(fields)
+        for f in cont.fields:
+            f.values[:] = 0.1 * rng.standard_normal(f.values.shape)
+        for n_ in (0, 1):
+            mon, unit = "math.field-functions", "math:field-functions[%s,n=%d]" % (kind, n_)
+
+            def judge(what, got, ref, tol=1e-12):
+                got = np.asarray(got)
+                if got.shape != ref.shape:
+                    run.fail(mon, "routine=%s[%s] clause=shape" % (what, kind), "%s(n=%d) on a %s container: shape %s, expected %s"
+                             % (what, n_, kind, got.shape, ref.shape), unit=unit)
+                    return
+                run.compare(mon, "routine=%s[%s] clause=value" % (what, kind), maxabs(got - ref), tol,
+                            "%s(n=%d) is not that quantity of field %d of the %s container" % (what, n_, n_, kind), unit=unit,
+                            config=("field-functions", what, kind, n_))
+            vals = cont[n_].values.copy()
+            # displacement: the point values of field n, padded with zeros to dim columns
+            for dim in (3,) if vals.shape[1] == 3 else (2, 3):
+                ref = np.zeros((vals.shape[0], dim))
+                ref[:, :vals.shape[1]] = vals
+                judge("displacement(dim=%d)" % dim, fm.displacement(cont, dim=dim, n=n_), ref, tol=0.0)
+            judge("displacement()", fm.displacement(cont, n=n_), np.pad(vals, ((0, 0), (0, 3 - vals.shape[1]))), tol=0.0)
+            # deformation gradient F = 1 + du/dX; plane strain: padded to 3x3 with F33 = 1; axisymmetric: F33 = 1 + u_r / R
+            H = _quad_F(cont[n_], reg, mesh)
+            if kind in ("planestrain", "axisymmetric"):
+                H = np.pad(H, ((0, 1), (0, 1), (0, 0), (0, 0)))
+            if kind == "axisymmetric":
+                h = np.asarray(reg.h)
+                for c in range(H.shape[-1]):
+                    for q in range(H.shape[-2]):
+                        R = sum(mesh.points[mesh.cells[c, a], 1] * h[a, q, c if h.shape[-1] > 1 else 0] for a in range(h.shape[0]))
+                        ur = sum(vals[mesh.cells[c, a], 1] * h[a, q, c if h.shape[-1] > 1 else 0] for a in range(h.shape[0]))
+                        H[2, 2, q, c] = ur / R
+            dF = H.shape[0]
+            F = H + np.eye(dF).reshape(dF, dF, 1, 1)
+            C = np.einsum("kiqc,kjqc->ijqc", F, F)
+            judge("deformation_gradient", fm.deformation_gradient(cont, n=n_), F)
+            judge("right_cauchy_green_deformation", fm.right_cauchy_green_deformation(cont, n=n_), C)
+            w, N = np.linalg.eigh(np.moveaxis(C, (0, 1), (-2, -1)))
+            for k_, f_ in ((0, lambda lam2: np.log(lam2) / 2), (2, lambda lam2: (lam2 - 1) / 2), (1, lambda lam2: np.sqrt(lam2) - 1)):
+                E = np.moveaxis(np.einsum("...a,...ia,...ja->...ij", f_(w), N, N), (-2, -1), (0, 1))
+                judge("strain(k=%d)" % k_, fm.strain(cont, k=k_, n=n_), E)
+                judge("strain(k=%d,tensor=False)" % k_, fm.strain(cont, k=k_, n=n_, tensor=False), np.moveaxis(f_(w), -1, 0))
+                Ev = np.array([E[i, j] * (1.0 if i == j else 2.0) for i, j in voigt[dF]])
+                judge("strain(k=%d,asvoigt=True)" % k_, fm.strain(cont, k=k_, n=n_, asvoigt=True), Ev)
+            judge("evaluate.log_strain(tensor=False)", cont.evaluate.log_strain(n=n_, tensor=False), np.moveaxis(np.log(w) / 2, -1, 0))
+
+
 def make_case(name, drive):
     def fn(run):
         rng = rng_for(run.seed, "C17", name)
@@ -235,8 +570,10 @@ def make_case(name, drive):
 
 
 def cases(tier, seed):
-    return [("unary", make_case("unary", drive_unary)), ("binary", make_case("binary", drive_binary)),
-            ("misc", make_case("misc", drive_misc))]
+    # (order = distribution over the shards, case k runs in shard k mod jobs: the long "binary" case runs alone)
+    return [("unary", make_case("unary", drive_unary)), ("misc", make_case("misc", drive_misc)),
+            ("binary", make_case("binary", drive_binary)), ("flags", make_case("flags", drive_flags)),
+            ("shapes", make_case("shapes", drive_shapes)), ("fields", make_case("fields", drive_fields))]
 
 
 def _required():
@@ -265,6 +602,22 @@ def _required():
             "math:rotation_matrix[dim=3,axis=2]", "math:strain_stretch_1d[k=0]", "math:strain_stretch_1d[k!=0]",
             "math:strain[tensor=True,asvoigt=False,k=0]", "math:strain[tensor=True,asvoigt=False,k=2]",
             "math:strain[tensor=False,asvoigt=False,k=0]", "math:strain[tensor=True,asvoigt=True,k=0]", "math:linsteps"]
+    # third audit: buffers holding NaN / inf before the call, buffers aliasing an input, further flag combinations
+    for r in ("det", "inv", "cof", "dev", "sym", "trace", "dot", "ddot", "dddot", "dya", "cdya", "cdya_ik", "cdya_il"):
+        req += ["math:%s:out[nan]" % r, "math:%s:out[inf]" % r]
+    req += ["math:sym:out[aliased]", "math:dev:out[aliased]", "math:dot:out[aliased]", "math:trace:out", "math:cof:out",
+            "math:dya:out", "math:inv[full_output+determinant]", "math:inv[full_output+sym]", "math:inv[full_output+out]",
+            "math:identity[A]", "math:identity[A+dim]", "math:identity[A+shape]", "math:identity[A+dtype]",
+            "math:identity[dim+shape+dtype]", "math:identity:dtype", "math:tovoigt[2d,nonsymmetric]", "math:tovoigt[3d,nonsymmetric]",
+            "math:inplane[vectors=list]", "math:solve_nd[n=0]", "math:solve_nd[broadcast tensor axes]",
+            "math:solve_nd[batch rank 0]", "math:solve_nd[batch rank 1]", "math:solve_nd[batch rank 2]", "math:solve_nd[batch rank 3]",
+            "math:strain[repeated stretches]", "math:strain[small strains]:tight",
+            "math:strain[tensor=True,asvoigt=False,fun=custom]", "math:strain[tensor=False,asvoigt=False,fun=custom]",
+            "math:strain[tensor=True,asvoigt=True,fun=custom]"]
+    # threaded evaluations with more items than workers (needs a pool of at least two workers, like every parallel=True unit)
+    req += ["math:%s[parallel=True,chunks>1]" % r for r in ("dot", "ddot", "dddot", "cdya", "cdya_ik", "cdya_il")]
+    for kind in ("3d", "2d", "planestrain", "axisymmetric"):
+        req += ["math:field-functions[%s,n=%d]" % (kind, n) for n in (0, 1)]
     return req
 
 
@@ -273,8 +626,13 @@ SPEC = {
     "rule": ("every public routine/mode/flag of felupe.math is driven with seeded well-conditioned inputs (cond < 50) for "
              "dims 1..3, batch shapes (1,1),(3,5),(3,1),(1,5),(7,),(2,3,4),(40,30) incl. mixed broadcast between operands, "
              "float64 and float32, out = None/fresh/reused, parallel on/off with switch interval 1e-6; a configuration is "
-             "distinct by (routine, mode/flags, dim) and non-trivial when a per-item numpy reference was compared"),
+             "distinct by (routine, mode/flags, dim) and non-trivial when a per-item numpy reference was compared; "
+             "further cases: buffers holding NaN/inf or aliasing an input, no / three batch axes, float32 / integer operands and "
+             "mixed tensor dimensions for the binary routines, batches longer than the einsumt pool (recorded as einsumt_workers; "
+             "with a single worker the parallel=True units are not reached), special spectra and own strain-stretch relations for "
+             "strain, field-level functions on 3D / 2D / plane-strain / axisymmetric two-field containers"),
     "assumptions": ["numpy.linalg and explicit numpy.einsum per batch item are the reference",
-                    "tolerance 1e3*eps(dtype)*scale (times cond for inverses)"],
-    "jobs": {"quick": 3, "thorough": 3},
+                    "tolerance 1e3*eps(dtype)*scale (times cond for inverses)",
+                    "field-level functions: the region's shape-function gradients (judged by C06) are taken as given"],
+    "jobs": {"quick": 4, "thorough": 5},
 }
